@@ -10,7 +10,7 @@ CLAIMED = {
          "Real coordinator, pool threads, channel and preprocessor run under a seeded scheduler that owns every synchronisation point (task begin, task end before send, coordinator poll, optional io points); every generated path is pre-populated with stale bytes. Holds for the sampled (project, inputs, K, schedule) tuples; all labelled DAGs on <=4 files are swept in every run."),
  "C03": ("exploration", "5.C03", "seeded schedule search; deterministic livelock/step-cap/watchdog detectors; execution counters (marker commands) and R-seq completeness",
          "Termination is decided without wall-clock: after the last delivery the coordinator must leave each loop on its next poll. Exactly-once is counted through side-effect markers of run commands. Sampled digraphs (cyclic ones included), duplicate and aliased inputs, K in {1,2,3,4,8,16}."),
- "C04": ("fault_enumeration", "5.C04", "enumerated grid fault kind x position x mode, each cell instantiated on seeded DAG projects under seeded schedules; real OS faults (EISDIR, ENOENT, ENOSPC via /dev/full, unwritable /proc target, invalid UTF-8); CLI exit status cross-check",
+ "C04": ("fault_enumeration", "5.C04", "enumerated grid fault kind x position x mode, each cell instantiated on seeded DAG projects under seeded schedules; real OS faults (EISDIR, ENOENT, ENOSPC via /dev/full, unwritable /proc target, invalid UTF-8, RLIMIT_FSIZE); plus an errno at every system-call position of the real binary (strace inject, positions taken from a recorded run); CLI exit status cross-check",
          "265 cells (19 fault kinds x 5 positions x the modes in which the fault is meaningful, DESIGN.md C04 table), about 22 cases per cell per quick run (2 schedules per generated instance); the failing result reaches the coordinator first / last / between others with and without tasks in flight (early return and Drop drain). RLIMIT_FSIZE (F8) is applied in-process around the simulated run with byte-exact limits derived from the sizes a reference build produces; every 8th case is repeated through the real binary."),
  "C05": ("exploration", "5.C05", "seeded schedule search over cyclic digraph projects; verdict + liveness + acyclic part vs R-seq",
          "Self-loops, 2-cycles, longer cycles, upstream files and bystanders under seeded schedules; thorough tier sweeps every labelled digraph with self-loops on <=4 files."),
@@ -18,9 +18,9 @@ CLAIMED = {
          "Verify verdict is compared with an independently computed 'is every stored output of the closure byte-equal to a fresh sequential build' predicate; read-only-ness is checked on inode, mtime sentinel and bytes of every output path."),
  "C07": ("exploration", "5.C07", "seeded histories (build, clean, clean) with whole-tree snapshots and command execution markers, every invocation under the controller",
          "Whole-tree comparison against the pre-build snapshot, marker files prove no command ran, projects with directive errors included. The documented limitation that clean does not follow dependencies is listed as known finding K1 (exact signature); everything else is a violation."),
- "C08": ("fault_enumeration", "5.C08", "crash images at scheduler steps with torn files + dirty pre-state classes at every generated path, repaired by a build that is compared with the same build (same schedule seed) from a pristine tree",
+ "C08": ("fault_enumeration", "5.C08", "crash images at scheduler steps with torn files + dirty pre-state classes at every generated path, repaired by a build that is compared with the same build (same schedule seed) from a pristine tree; plus SIGKILL at every system-call position (openat / write / rename / unlink) of the real binary (strace inject), then rebuild; stragglers of a returned run carried into the next run",
          "Fault classes enumerated per case: pre-state class per generated path (absent, stale, empty, prefix at char boundary, prefix inside a character, random valid / invalid UTF-8), crash point = scheduler step (seeded, all K), torn-file choice per file written by the interrupted action. Schedules and projects are sampled."),
- "C09": ("exploration", "5.C09", "twin simulated runs (build vs --needed) from an identical checkpointed pre-state under the same schedule seed; inode + mtime-sentinel comparison",
+ "C09": ("exploration", "5.C09", "twin simulated runs (build vs --needed) from an identical checkpointed pre-state under the same schedule seed; inode + mtime-sentinel comparison; twin runs of the real binary from the tree a SIGKILL at a system call left (strace inject)",
          "Pre-states mix up-to-date, stale, missing, torn and non-UTF-8 generated files after source edits and tampering."),
  "C10": ("exploration", "5.C10", "whole-tree snapshot diff (bytes, inode, mtime) around every simulated invocation in all four modes, failing projects and decoys included",
          "No schedule occurs in the statement; the simulator contributes the executions (all modes, all verdicts, dirty trees) around which the diff is taken."),
